@@ -76,7 +76,7 @@ func checkSeq(ctx *pbt.Ctx, c Seq) error {
 	for i, p := range c.Progs {
 		flags := interp.Flags(p.Flags)
 		model := p.Ctx.Model(p.Unlock, p.Lock)
-		refs[i] = interp.VerifyScript(p.Unlock, p.Lock, flags, interp.TxChecker{Tx: model, Idx: 0, Amount: p.Ctx.Amount}, true, lim)
+		refs[i] = interp.VerifyScript(p.Unlock, p.Lock, flags, interp.TxChecker{Tx: model, Idx: p.Ctx.Index(), Amount: p.Ctx.Amount}, true, lim)
 		if refs[i].BudgetHit {
 			ctx.Discard("over_budget")
 			return nil
